@@ -172,6 +172,12 @@ theorem lookup_agrees_with_add {s s' : Snap} {n syn : Node} {f2o : SlotMap} {dat
     (h : Snap.addNew s n f2o syn data = some (s', a)) : ∃ m, Snap.lookup s' n = some { id := a.id, m := m } :=
   Snap.lookup_after_add (Snap.ufOK_sound hok).1 hids h
 
+/-- **known terms stay known**: a node that `lookup` found before an insertion is found afterwards, with the same result -/
+theorem known_terms_stay_known {s s' : Snap} {n m syn : Node} {f2o : SlotMap} {data : String} {a x : AppId}
+    (hok : Snap.AddOK s) (h : Snap.addNew s n f2o syn data = some (s', a)) (hl : Snap.lookup s m = some x) :
+    Snap.lookup s' m = some x :=
+  Snap.lookup_survives_add hok.1 (Snap.addOK_ids hok) h hl
+
 /-- non-vacuity: on the empty e-graph the node `f2($8, $12)` (variant 7, two slot fields) is a miss; with the fresh slots
 `101, 105` handed in, the model allocates class 0 -/
 example : ((Snap.addNew { uf := [], classes := [] } { v := 7, fields := [.slot 8, .slot 12] } [(101, 8), (105, 12)]
